@@ -549,9 +549,21 @@ func (f *Formatter) renderOpenTag(n *html.Node) string {
 		buf.WriteString(" ")
 		buf.WriteString(attr.Key)
 		if attr.Val != "" {
-			buf.WriteString("=\"")
-			buf.WriteString(helpers.FormatAttr(attr.Val))
-			buf.WriteString("\"")
+			// The value is written so that it parses back to itself: an ampersand that would start a
+			// character reference is escaped, and the quote character is chosen (or escaped) so that
+			// quotes inside the value cannot end it.
+			val := escapeAttrAmp(helpers.FormatAttr(attr.Val))
+			quote := "\""
+			if strings.Contains(val, "\"") {
+				if strings.Contains(val, "'") {
+					val = strings.ReplaceAll(val, "\"", "&quot;")
+				} else {
+					quote = "'"
+				}
+			}
+			buf.WriteString("=" + quote)
+			buf.WriteString(val)
+			buf.WriteString(quote)
 		}
 	}
 
@@ -615,4 +627,24 @@ func IndentString(text string, level int, width int) string {
 	}
 
 	return strings.Join(lines, "\n")
+}
+
+// escapeAttrAmp escapes ampersands that would otherwise start a character reference
+// when the attribute value is parsed again; a bare "&" or "&&" is left alone.
+func escapeAttrAmp(s string) string {
+	if !strings.Contains(s, "&") {
+		return s
+	}
+	var b strings.Builder
+	for i := 0; i < len(s); i++ {
+		if s[i] == '&' && i+1 < len(s) {
+			c := s[i+1]
+			if c == '#' || (c >= 'a' && c <= 'z') || (c >= 'A' && c <= 'Z') || (c >= '0' && c <= '9') {
+				b.WriteString("&amp;")
+				continue
+			}
+		}
+		b.WriteByte(s[i])
+	}
+	return b.String()
 }
